@@ -163,7 +163,7 @@ def instances(tier, seed):
     for n, ml in ([(1, 6), (2, 6), (3, 5)] if q else [(1, 8), (2, 8), (3, 8), (4, 6)]):
         out.append(Instance("split[n=%d,len<=%d]" % (n, ml), h_split(n, ml), F,
                             "%d sorted alignments, start in [0,%d), length <= %d, scaled constants" % (n, UNIVERSE, ml), weight=100 ** n, budget_s=2400 if q else 7200))
-    for nb in ((1, 2, 3, 4) if q else (1, 2, 3, 4, 5, 6)):
+    for nb in ((1, 2, 3, 4, 5, 6, 7) if q else (1, 2, 3, 4, 5, 6, 7, 8, 9)):
         out.append(Instance("tile[bins=%d]" % nb, h_split_regions_tile(nb), [A + "AlignmentCollector.split_coverage_regions"],
                             "%d coverage bins with symbolic coverage, symbolic region ends" % nb, weight=3 ** nb, budget_s=900))
     # a read processed in several sub-regions yields identical records: exactly one survives (shared with C08)
